@@ -28,10 +28,12 @@ RULE = ("one run = 1-3 PV meters with 1-2 inverters each (optionally one bare in
         "non-trivial = at least one primary failure; distinct = abstract digest of (fault kind, component) sequence")
 QUICK_RUNS = 4000
 THOROUGH_RUNS = 250_000
-EXPECT_PROBES = ["grid_formula_variant", "battery_formula_variant", "fallback_started", "fallback_lagging", "primary_recovered", "fallback_before_primary", "primary_closed"]
+EXPECT_PROBES = ["primary_lagging", "transient_primary_error", "grid_formula_variant", "battery_formula_variant", "fallback_started", "fallback_lagging", "primary_recovered", "fallback_before_primary", "primary_closed"]
 
 
 TAIL = 6
+TRANSIENT_WINDOW = 6
+"""Timestamps e .. e+6 after an injected transient receive error at e are attributed to the known finding."""
 """Fault-free rounds delivered after the judged ones, so that a fallback started by a failure in the
 last judged round still gets data (streams do not end in reality)."""
 
@@ -106,19 +108,34 @@ def scenario(sim: Sim) -> None:
     if ch.chance("close_primary", 0.15):
         close = (terms[ch.draw("close_term", nterms)]["primary"], ch.draw("close_round", rounds))
     fb_none_rate = ch.choice("fb_none_rate", [0.0, 0.0, 0.04])
-    lag = {i: ch.weighted("fb_lag", [4, 2, 1]) for t in terms for i in t["fallback"]}
+    fb_ids = {i for t in terms for i in t["fallback"]}
+    lag = {i: ch.weighted("fb_lag", [4, 2, 1]) for i in sorted(fb_ids)}
+    # primaries (and the bare inverter) may be delivered late as well: the formula then runs behind and the
+    # fallback streams are *ahead* of what the formula is processing
+    for t in terms:
+        lag[t["primary"]] = ch.weighted("primary_lag", [8, 1, 1, 1])
+    if bare:
+        lag[90] = ch.weighted("bare_lag", [4, 1, 1])
+    if any(lag[t["primary"]] for t in terms):
+        sim.probe("primary_lagging")
+    # transient (non-stop) receiver errors on primary streams
+    transient: set[tuple[int, int]] = set()
+    if ch.chance("transient_errors", 0.25):
+        for _ in range(1 + ch.draw("n_transient", 3)):
+            transient.add((terms[ch.draw("transient_term", nterms)]["primary"], ch.draw("transient_round", rounds)))
     sim.config.update(generator="battery" if battery else ("grid" if grid else "pv"), terms=terms, bare=bare, rounds=rounds, close=close, lag={str(k): x for k, x in lag.items()})
     sim.loop.max_iters_no_advance = 4000
     sim.loop.max_steps = 60_000
     sim.set_cost_mode(ch.weighted("cost_mode", [3, 1]))
 
+    faulty_keys: set[tuple[str, Any]] = set()
     out: list[tuple[int, float | None, bool]] = []
     first_index: dict[int, int] = {}
     delivered: dict[tuple[int, int], float | None] = {}
     state = {"closed": False}
 
     async def main() -> None:
-        reg = ChannelRegistry(name="reg")
+        reg = _faulty_registry(faulty_keys)
         sub: Broadcast[Any] = Broadcast(name="subscriptions")
         subrx = sub.new_receiver(limit=200)
         if battery:
@@ -145,7 +162,7 @@ def scenario(sim: Sim) -> None:
                 senders.setdefault(req.component_id, []).append(tx)
                 keys[req.component_id] = key
                 sim.ev("subscribed", req.component_id)
-                if req.component_id in lag:
+                if req.component_id in fb_ids:
                     sim.probe("fallback_started")
 
         async def reader() -> None:
@@ -171,14 +188,19 @@ def scenario(sim: Sim) -> None:
                     await reg.close_and_remove(keys[cid])
                 return
             kind = plan.get((cid, k), "ok")
-            if cid in lag and fb_none_rate and ch.chance("fb_none", fb_none_rate):
+            if cid in fb_ids and fb_none_rate and ch.chance("fb_none", fb_none_rate):
                 kind = "none"
-            val: float | None = {"ok": v(cid, k), "none": None, "nan": math.nan}[kind]
+            if (cid, k) in transient and kind == "ok":
+                kind = "error"
+            val: float | None = {"ok": v(cid, k), "none": None, "nan": math.nan, "error": v(cid, k)}[kind]
+            if kind == "error":
+                faulty_keys.add((keys[cid], fc.grid_ts(sim, k)))   # the receiver raises when it consumes this sample
+                sim.probe("transient_primary_error")
             if kind != "ok":
-                sim.fault(("primary_" if cid not in lag else "fallback_") + kind)
+                sim.fault(("primary_" if cid not in fb_ids else "fallback_") + kind)
                 sim.ev("fault", f"{cid}:{kind}", k)
                 sim.note(f"component {cid} T={k}: {kind}")
-            delivered[(cid, k)] = val
+            delivered[(cid, k)] = None if kind == "error" else val     # a sample lost to a receive error is missing
             first_index.setdefault(cid, k)
             for tx in senders[cid]:
                 await tx.send(Sample(fc.grid_ts(sim, k), None if val is None else Quantity(val)))
@@ -189,7 +211,7 @@ def scenario(sim: Sim) -> None:
             prim_pos = {t["primary"]: order.index(t["primary"]) for t in terms if t["primary"] in order}
             for cid in order:
                 L = lag.get(cid, 0)
-                if L:
+                if L and cid in fb_ids:
                     sim.probe("fallback_lagging")
                 for t in terms:
                     if cid in t["fallback"] and L == 0 and t["primary"] in prim_pos and order.index(cid) < prim_pos[t["primary"]]:
@@ -214,7 +236,47 @@ def scenario(sim: Sim) -> None:
                           f"primary {close} closed; formula engine livelocked (no clock advance, no output); "
                           f"last outputs {out[-3:]}")
         raise
-    _oracle(sim, terms, bare, rounds, delivered, first_index, out, close)
+    _oracle(sim, terms, bare, rounds, delivered, first_index, out, close, transient)
+
+
+def _faulty_registry(faulty_keys: set[tuple[str, Any]]) -> Any:
+    """ChannelRegistry whose receivers raise a transient (non-stop) ReceiverError when they consume a sample the
+    harness marked - the "primary stream erroring at any point" of the quantifier."""
+    from frequenz.channels import Receiver, ReceiverError
+    from frequenz.sdk._internal._channels import ChannelRegistry
+
+    class FaultyReceiver(Receiver[Any]):
+        def __init__(self, inner: Any, key: str) -> None:
+            self._inner, self._key = inner, key
+
+        async def ready(self) -> bool:
+            return bool(await self._inner.ready())
+
+        def consume(self) -> Any:
+            msg = self._inner.consume()
+            if (self._key, msg.timestamp) in faulty_keys:
+                raise ReceiverError("injected transient receive error", self)
+            return msg
+
+        def close(self) -> None:
+            if hasattr(self._inner, "close"):
+                self._inner.close()
+
+    class Proxy:
+        def __init__(self, chan: Any, key: str) -> None:
+            self._chan, self._key = chan, key
+
+        def new_receiver(self, **kw: Any) -> Any:
+            return FaultyReceiver(self._chan.new_receiver(**kw), self._key)
+
+        def __getattr__(self, name: str) -> Any:
+            return getattr(self._chan, name)
+
+    class FaultyRegistry(ChannelRegistry):
+        def get_or_create(self, message_type: Any, key: str) -> Any:
+            return Proxy(super().get_or_create(message_type, key), key)
+
+    return FaultyRegistry(name="reg")
 
 
 def _valid(x: float | None) -> bool:
@@ -222,7 +284,8 @@ def _valid(x: float | None) -> bool:
 
 
 def _oracle(sim: Sim, terms: list[dict[str, Any]], bare: bool, rounds: int, delivered: dict[tuple[int, int], float | None],
-            first_index: dict[int, int], out: list[tuple[int, float | None, bool]], close: tuple[int, int] | None) -> None:
+            first_index: dict[int, int], out: list[tuple[int, float | None, bool]], close: tuple[int, int] | None,
+            transient: set[tuple[int, int]]) -> None:
     if any(not _valid(delivered.get((t["primary"], k))) for t in terms for k in range(rounds)):
         sim.nontrivial = True
     # per term: T0 (first invalid primary round) and T_f (first index present on all fallback streams)
@@ -240,7 +303,8 @@ def _oracle(sim: Sim, terms: list[dict[str, Any]], bare: bool, rounds: int, deli
             # TAIL fault-free rounds follow the judged ones, so a fallback started by any judged failure
             # must have subscribed and received data by the end of the run (bounded start-up)
             exact_from[p] = rounds + 10
-            sim.soft_violation("fallback_started", {"history": "after_close" if close and close[0] == p else "no_close"},
+            sim.soft_violation("fallback_started", {"history": "after_transient_error" if any(c == p for c, _ in transient)
+                                                    else ("after_close" if close and close[0] == p else "no_close")},
                                f"primary {p} invalid from T={t0} but fallback components "
                                f"{[i for i in t['fallback'] if i not in first_index]} were never subscribed "
                                f"({rounds + TAIL - t0} rounds later)")
@@ -249,9 +313,17 @@ def _oracle(sim: Sim, terms: list[dict[str, Any]], bare: bool, rounds: int, deli
             exact_from[p] = max(t0 + 1, tf)
     closed_from = close[1] if close else None
 
+    # the known defect around transient receive errors (known_findings.json) is short-lived: a few timestamps
+    # after the error the formula is aligned again.  Only that neighbourhood is attributed to it, so that anything
+    # going wrong later (e.g. "never returns to the primary") is still reported.
+    transient_rounds = sorted(k for _, k in transient)
+
     def phase_of(k: int, after_close: bool | None) -> str:
         """Which history a finding belongs to: only what happens after a primary stream was closed is
-        attributed to the close (everything emitted before it is an ordinary close-free history)."""
+        attributed to the close (everything emitted before it is an ordinary close-free history); likewise
+        for timestamps from the first injected transient receive error on."""
+        if any(e <= k <= e + TRANSIENT_WINDOW for e in transient_rounds):
+            return "after_transient_error"
         if closed_from is None:
             return "no_close"
         if after_close is None:  # a missing output
